@@ -22,8 +22,11 @@ type C10Notif struct {
 	Method string          `json:"method,omitempty"`
 	Params json.RawMessage `json:"params,omitempty"` // custom / raw: a JSON object
 	Meta   json.RawMessage `json:"meta,omitempty"`
-	Pad    int             `json:"pad,omitempty"`
-	Delay  int             `json:"delay,omitempty"` // 0 none, 1 Gosched, k>=2: k*50us
+	// MetaForm: how the handler spells _meta: 0 map[string]interface{}, 1 mcp.Meta, 2 a struct value,
+	// 3 (raw only) a hand-built Notification carrying _meta among its additional fields
+	MetaForm int `json:"metaform,omitempty"`
+	Pad      int `json:"pad,omitempty"`
+	Delay    int `json:"delay,omitempty"` // 0 none, 1 Gosched, k>=2: k*50us
 }
 
 type C10Call struct {
@@ -35,7 +38,8 @@ type C10Case struct {
 	Calls    []C10Call `json:"calls"`    // executed concurrently on one client
 	Handlers []string  `json:"handlers"` // methods the client registers a handler for
 	Real     bool      `json:"real"`
-	HErrs    []bool    `json:"herrs"` // cycled: the client's handler returns an error for this notification (must not disturb delivery)
+	HErrs    []bool    `json:"herrs"`             // cycled: the client's handler returns an error for this notification (must not disturb delivery)
+	Abandon  int       `json:"abandon,omitempty"` // calls of other peers that left in the middle of their event stream, before the calls above start
 }
 
 var c10Methods = []string{"notifications/progress", "notifications/message", "notifications/custom-a", "custom/b", "x"}
@@ -65,6 +69,7 @@ func genC10(t *rapid.T) C10Case {
 						mt["progressToken"] = genJSONTree(t, 3)
 					}
 					nf.Meta, _ = json.Marshal(mt)
+					nf.MetaForm = rapid.IntRange(0, 3).Draw(t, "metaform")
 				}
 			}
 			if rapid.IntRange(0, 9).Draw(t, "big") == 0 {
@@ -78,6 +83,9 @@ func genC10(t *rapid.T) C10Case {
 		if rapid.IntRange(0, 2).Draw(t, "handler") != 0 {
 			c.Handlers = append(c.Handlers, m)
 		}
+	}
+	if rapid.IntRange(0, 3).Draw(t, "abandon") == 0 {
+		c.Abandon = rapid.IntRange(1, 6).Draw(t, "nabandon")
 	}
 	nh := rapid.IntRange(1, 4).Draw(t, "nherrs")
 	for i := 0; i < nh; i++ {
@@ -129,6 +137,15 @@ func execC10(c C10Case) *Failure {
 		if !ok {
 			return nil, fmt.Errorf("no notification sender in context")
 		}
+		if ci >= len(c.Calls) {
+			// the call of a peer that leaves mid-stream: the handler keeps emitting and does not look at the errors
+			for j := 0; j < 8; j++ {
+				sender.SendCustomNotification(c10Methods[j%len(c10Methods)], map[string]interface{}{"tag": fmt.Sprintf("c%dn%d", ci, j), "pad": strings.Repeat("a", 300)})
+				sender.SendProgress(float64(j), fmt.Sprintf("c%dn%d|", ci, j))
+				time.Sleep(150 * time.Microsecond)
+			}
+			return mcp.NewTextResult("abandoned"), nil
+		}
 		for j, n := range c.Calls[ci].Notifs {
 			switch {
 			case n.Delay == 1:
@@ -151,14 +168,34 @@ func execC10(c C10Case) *Failure {
 				if n.Pad > 0 {
 					params["pad"] = pad
 				}
+				handBuilt := false
 				if len(n.Meta) > 0 {
 					var mt map[string]interface{}
 					json.Unmarshal(n.Meta, &mt)
-					params["_meta"] = mt
+					switch n.MetaForm {
+					case 1:
+						params["_meta"] = mcp.Meta(mt)
+					case 2:
+						if tok, has := mt["progressToken"]; has {
+							params["_meta"] = struct {
+								ProgressToken interface{} `json:"progressToken"`
+							}{tok}
+						} else {
+							params["_meta"] = struct{}{}
+						}
+					case 3:
+						params["_meta"] = mt
+						handBuilt = n.Kind == "raw"
+					default:
+						params["_meta"] = mt
+					}
 				}
-				if n.Kind == "custom" {
+				switch {
+				case n.Kind == "custom":
 					err = sender.SendCustomNotification(n.Method, params)
-				} else {
+				case handBuilt:
+					err = sender.SendNotification(&mcp.Notification{Method: n.Method, Params: mcp.NotificationParams{AdditionalFields: params}})
+				default:
 					err = sender.SendNotification(mcp.NewNotification(n.Method, params))
 				}
 			}
@@ -168,6 +205,23 @@ func execC10(c C10Case) *Failure {
 		}
 		return mcp.NewTextResult(fmt.Sprintf("done-%d", ci)), nil
 	})
+	for a := 0; a < c.Abandon; a++ {
+		hdr := map[string]string{"Content-Type": "application/json", "Accept": "application/json, text/event-stream"}
+		if c.Mode.Stateful() {
+			ref, err := w.Connect()
+			if err != nil {
+				return Failf("C10/connect", "%v", err)
+			}
+			hdr["Mcp-Session-Id"] = ref.SessionID
+		}
+		body := fmt.Sprintf(`{"jsonrpc":"2.0","id":"ab%d","method":"tools/call","params":{"name":"emit","arguments":{"call":%d}}}`, a, len(c.Calls)+a)
+		lr := StartLive(w.Srv.Handler(), "POST", "http://verif/mcp", hdr, []byte(body), nil)
+		lr.WaitEvents(1, Bound())
+		lr.PeerGone()
+		if !lr.WaitReturned(Patience()) {
+			return TimingFailf("C10/abandoned-call-stuck", "%s: the handler of a call whose peer left mid-stream did not return", c.Mode)
+		}
+	}
 	lc, err := w.ConnectLib(c.Real, nil, mcp.WithClientGetSSEEnabled(false))
 	if err != nil {
 		return Failf("C10/connect", "%v", err)
@@ -239,6 +293,11 @@ func execC10(c C10Case) *Failure {
 	}
 	mu.Lock()
 	defer mu.Unlock()
+	for ci := range seen {
+		if ci >= len(c.Calls) {
+			return Failf("C10/foreign-notification", "%s: a handler received %s %.120v, emitted inside the call of another peer that had left (%d such calls)", c.Mode, seen[ci][0].method, seen[ci][0].params, c.Abandon)
+		}
+	}
 	if len(seen[-1]) > 0 {
 		return Failf("C10/unattributable-notification", "%s: a handler received %s %v, which no call emitted", c.Mode, seen[-1][0].method, seen[-1][0].params)
 	}
